@@ -179,6 +179,20 @@ fn chk_codec(c: Compression, kind: u64, size: usize, seed: u64) -> Result<(), St
         if back != data {
             return Err(format!("streamed decompression (round {round}) differs from the input"));
         }
+        // the same from a source that hands out at most 1 / 2 / 3 / 7 bytes per read call
+        if size <= 200_000 {
+            let step = [1usize, 2, 3][round as usize % 3];
+            for k in [step, 7] {
+                let mut src = crate::streams::SyncStream(crate::streams::Core::new(out.clone(), 0));
+                src.0.sched = crate::streams::Schedule { chunks: vec![k], pend: vec![] };
+                let mut r = pmtiles2::util::decompress(c, &mut src).map_err(|e| format!("decompress over a source serving {k} byte(s) per read: {e}"))?;
+                let mut back = Vec::new();
+                r.read_to_end(&mut back).map_err(|e| format!("streaming read over a source serving {k} byte(s) per read: {e}"))?;
+                if back != data {
+                    return Err(format!("streamed decompression over a source serving {k} byte(s) per read differs from the input"));
+                }
+            }
+        }
         if size > 200_000 {
             break;
         }
